@@ -199,6 +199,8 @@ func runC08(c *Ctx) {
 		}
 	}
 
+	ruleResultOnEveryExit(c)
+
 	R.Rule("R-go-bounded", "E1", "the go statements of the package are the four known ones; delivery goroutines send their result at most once per path on a channel of capacity >= 1", 4)
 	want := map[string]bool{"(*Server).Serve": true, "(*Conn).handleBdat": true, "(*Conn).handleDataLMTP": true, "(*Server).Shutdown": true}
 	var got []string
@@ -245,4 +247,54 @@ func fieldOwner(in ssa.Instruction) string {
 		return ""
 	}
 	return strings.SplitN(fieldDesc(fld, base), ".", 2)[0]
+}
+
+// ruleResultOnEveryExit (C08, C13, C20): a delivery goroutine signals its result on every way out — on every
+// normal path of its body and in the recovery branch of its deferred handler — because the command loop blocks
+// on that result; a missing signal leaves the connection goroutine waiting forever (no 421, no Logout, Shutdown hangs).
+func ruleResultOnEveryExit(c *Ctx) {
+	R := c.R
+	R.Rule("R-result-on-every-exit", "E2 path count + E3", "each delivery goroutine sends its result exactly once on every normal path, and its deferred recovery sends it when a panic was recovered", 4)
+	isSend := func(in ssa.Instruction) (int, int) {
+		if _, ok := in.(*ssa.Send); ok {
+			return 1, 1
+		}
+		return 0, 0
+	}
+	for _, gn := range []string{"(*Conn).handleBdat$1", "(*Conn).handleDataLMTP$1"} {
+		g := c.A.Func(gn)
+		if g == nil {
+			continue
+		}
+		res := CountPathsOpt(g, CountOpts{Count: isSend})
+		R.Ob(gn+"/result sent on every normal path", c.P.Pos(g.Pos()), res.Min == 1 && res.Max == 1, fmt.Sprintf("between %d and %d result sends on a normal path through the delivery goroutine", res.Min, res.Max))
+		nRec := 0
+		for _, d := range withClosures(g) {
+			if d == g {
+				continue
+			}
+			hasRecover := false
+			allInstrs(d, func(in ssa.Instruction) {
+				if call, ok := in.(*ssa.Call); ok {
+					if b, ok := call.Call.Value.(*ssa.Builtin); ok && b.Name() == "recover" {
+						hasRecover = true
+					}
+				}
+			})
+			if !hasRecover {
+				continue
+			}
+			nRec++
+			_, sm := c.Std()
+			m, _ := sm.MustUnder(d, c.F.SkipUnder(`builtin:recover() != nil`))
+			sent := false
+			for l := range m {
+				if strings.HasPrefix(l, "chan-send:") {
+					sent = true
+				}
+			}
+			R.Ob(funcName(d)+"/result sent after a recovered panic", c.P.Pos(d.Pos()), sent, "the deferred recovery of the delivery goroutine does not certainly send a result when the backend panicked: the command loop waits for it forever")
+		}
+		R.Ob(gn+"/has a recovering defer", c.P.Pos(g.Pos()), nRec >= 1, "delivery goroutine without a recover(): a backend panic kills the process")
+	}
 }
